@@ -41,9 +41,9 @@ def run(ctx):
     ctx.need_module(SA)
     cls = ctx.need(f"{FS}:DofManager")
     init = ctx.need(f"{FS}:DofManager.__init__")
-    o1_o3(ctx, init)
-    o4_o5(ctx, cls)
-    o6(ctx, cls, init)
+    ctx.guard(o1_o3, ctx, init)
+    ctx.guard(o4_o5, ctx, cls)
+    ctx.guard(o6, ctx, cls, init)
     ctx.trust("numpy boolean-mask indexing enumerates True entries in row-major order; a[mask] = v and a.at[mask].set(v) scatter in the same order")
     ctx.assume("element stiffness blocks are symmetric (row/column roles of the COO coordinates may be exchanged)")
 
